@@ -168,6 +168,78 @@ Proof.
   apply chunks_shape. apply fuel_for_enough.
 Qed.
 
+(* the WriterTo path *)
+Lemma chunks_ok s : Forall rec_ok (chunks (fuel_for s) s) /\ concat (chunks (fuel_for s) s) = s.
+Proof. apply chunks_shape. apply fuel_for_enough. Qed.
+
+Lemma w_write_b_all w p : w_all (w_write_b w p) = w_all w ++ p.
+Proof.
+  destruct w as [buf out]. unfold w_write_b, w_all.
+  destruct (blen p <=? MAXW - blen buf) eqn:E; cbn [fst snd].
+  - rewrite app_assoc. reflexivity.
+  - destruct buf as [|b buf].
+    + cbn [fst snd]. rewrite concat_app, (proj2 (chunks_ok p)), !app_nil_r. reflexivity.
+    + set (bf := b :: buf) in *. set (av := Z.to_nat (MAXW - blen bf)).
+      destruct (blen (skipn av p) <=? MAXW); cbn [fst snd].
+      * rewrite concat_app. cbn [concat]. rewrite app_nil_r, <- !app_assoc. f_equal. f_equal. apply firstn_skipn.
+      * rewrite !concat_app. cbn [concat]. rewrite (proj2 (chunks_ok (skipn av p))), !app_nil_r, <- !app_assoc.
+        f_equal. f_equal. apply firstn_skipn.
+Qed.
+
+Lemma w_write_b_ok w p : w_ok w -> w_ok (w_write_b w p).
+Proof.
+  destruct w as [buf out]. unfold w_ok, w_write_b. cbn [fst snd]. intros [Hb Ho].
+  pose proof (blen_nonneg buf) as Hn. pose proof (blen_nonneg p) as Hp.
+  destruct (blen p <=? MAXW - blen buf) eqn:E; cbn [fst snd].
+  - split; [rewrite blen_app; lia|exact Ho].
+  - destruct buf as [|b buf].
+    + cbn [fst snd]. split; [unfold blen, MAXW; cbn [length]; lia|].
+      apply Forall_app. split; [exact Ho|apply chunks_ok].
+    + set (bf := b :: buf) in *. set (av := MAXW - blen bf).
+      assert (Hbf : 0 < blen bf) by (unfold bf, blen; cbn [length]; lia).
+      assert (Hsk : blen (skipn (Z.to_nat av) p) = blen p - av) by (apply blen_skipn; unfold av; lia).
+      assert (Hrec : rec_ok (bf ++ firstn (Z.to_nat av) p)).
+      { unfold rec_ok. rewrite blen_app, blen_firstn by (unfold av; lia). unfold av, MAXW in *. lia. }
+      destruct (blen (skipn (Z.to_nat av) p) <=? MAXW) eqn:E2; cbn [fst snd].
+      * split; [lia|]. apply Forall_app. split; [exact Ho|constructor; [exact Hrec|constructor]].
+      * split; [unfold blen, MAXW; cbn [length]; lia|].
+        apply Forall_app. split; [apply Forall_app; split; [exact Ho|constructor; [exact Hrec|constructor]]|apply chunks_ok].
+Qed.
+
+Lemma fold_write_b ps : forall w, w_ok w ->
+  w_ok (fold_left w_write_b ps w) /\ w_all (fold_left w_write_b ps w) = w_all w ++ concat ps.
+Proof.
+  induction ps as [|p ps IH]; intros w H; cbn [fold_left concat]; [rewrite app_nil_r; auto|].
+  destruct (IH (w_write_b w p) (w_write_b_ok w p H)) as [H1 H2].
+  split; [exact H1|]. rewrite H2, w_write_b_all, <- app_assoc. reflexivity.
+Qed.
+
+Lemma pieces_concat fuel : forall k s, concat (pieces fuel k s) = s.
+Proof.
+  induction fuel as [|f IH]; intros k s; destruct s as [|b s]; cbn [pieces]; try reflexivity.
+  - destruct (blen (b :: s) <=? k); cbn [concat]; apply app_nil_r.
+  - destruct (blen (b :: s) <=? k); [cbn [concat]; apply app_nil_r|].
+    cbn [concat]. rewrite IH. apply firstn_skipn.
+Qed.
+Lemma pieces_of_concat k body : concat (pieces_of k body) = body.
+Proof.
+  unfold pieces_of. destruct (k <=? 0); [destruct body; cbn [concat]; [reflexivity|apply app_nil_r]|apply pieces_concat].
+Qed.
+
+Lemma stdin_records_m_shape bc body : exists recs,
+  stdin_records_m bc body = recs ++ [[]] /\ Forall rec_ok recs /\ concat recs = body.
+Proof.
+  unfold stdin_records_m. destruct (0 <? bc); [apply stdin_records_shape|].
+  unfold stdin_records_w.
+  assert (H0 : w_ok ([], [])) by (split; [unfold blen, MAXW; cbn [fst length]; lia|constructor]).
+  destruct (fold_write_b (pieces_of (- bc) body) ([], []) H0) as [H1 H2].
+  set (w := fold_left w_write_b (pieces_of (- bc) body) ([], [])) in *.
+  exists (snd (w_flush w)). split; [reflexivity|].
+  destruct (w_flush_ok w H1) as [[_ H3] H4]. split; [exact H3|].
+  rewrite <- (pieces_of_concat (- bc) body). unfold w_all in H2 at 2. cbn [fst snd concat app] in H2.
+  rewrite <- H2, <- (w_flush_all w). unfold w_all. rewrite H4, app_nil_r. reflexivity.
+Qed.
+
 (* ---------------- records written by the client decode with the specification's record decoder ---------------- *)
 Lemma clen_roundtrip len : 0 <= len <= 65535 -> (len / 256) mod 256 * 256 + len mod 256 = len.
 Proof.
@@ -341,11 +413,11 @@ Qed.
 Lemma forallb_mk_recs typ cs : forallb (fun r => f_id r =? 1) (mk_recs typ cs) = true.
 Proof. induction cs as [|c cs IH]; [reflexivity|]. cbn [mk_recs map forallb f_id]. exact IH. Qed.
 
-Theorem request_roundtrip ps body : pairs_wf ps -> spec_request (do_written ps body) = Some (ps, body).
+Theorem request_roundtrip bc ps body : pairs_wf ps -> spec_request (do_written bc ps body) = Some (ps, body).
 Proof.
   intros Hwf.
   destruct (params_records_shape ps) as (P & EP & HP & CP).
-  destruct (stdin_records_shape body) as (S0 & ES & HS & CS).
+  destruct (stdin_records_m_shape bc body) as (S0 & ES & HS & CS).
   unfold spec_request, spec_records, do_written. rewrite EP, ES.
   set (w := enc_record T_BEGIN [0; 1; 0; 0; 0; 0; 0; 0] ++
             concat (map (enc_record T_PARAMS) (P ++ [[]])) ++ concat (map (enc_record T_STDIN) (S0 ++ [[]]))).
@@ -380,11 +452,11 @@ Proof.
 Qed.
 
 (* every record the client writes carries at most 65500 (< 65535) bytes *)
-Theorem records_bounded ps body :
-  Forall (fun c => blen c <= MAXW) (params_records ps ++ stdin_records body).
+Theorem records_bounded bc ps body :
+  Forall (fun c => blen c <= MAXW) (params_records ps ++ stdin_records_m bc body).
 Proof.
   destruct (params_records_shape ps) as (P & EP & HP & _).
-  destruct (stdin_records_shape body) as (S0 & ES & HS & _).
+  destruct (stdin_records_m_shape bc body) as (S0 & ES & HS & _).
   rewrite EP, ES. 
   assert (Hnil : Forall (fun c : bytes => blen c <= MAXW) [[]]) by (constructor; [unfold blen, MAXW; cbn [length]; lia|constructor]).
   repeat (apply Forall_app; split); try exact Hnil;
@@ -494,7 +566,7 @@ Theorem prop_C55_of_model ps body bc resp :
 Proof.
   intros Hwf Hkf. unfold kf_C55 in Hkf. unfold run_C55, prop_C55. rewrite dec_in_C55 in *.
   unfold out_C55. destruct (client_stream resp) as [st code] eqn:Ec.
-  assert (Hb : bad_input (VL [VB (do_written ps body); VB st; VZ code]) = false) by reflexivity.
+  match goal with |- bad_input ?o || _ = true => assert (Hb : bad_input o = false) by reflexivity end.
   rewrite Hb. cbn [orb].
   rewrite request_roundtrip by exact Hwf. rewrite same_pairs_refl, bytes_eqb_refl. cbn [andb].
   destruct (has_other_content resp) eqn:Eo; [discriminate|].
@@ -514,9 +586,9 @@ Proof.
   - vm_compute. discriminate.
 Qed.
 
-Corollary pairs_roundtrip ps body : pairs_wf ps -> option_map fst (spec_request (do_written ps body)) = Some ps.
+Corollary pairs_roundtrip bc ps body : pairs_wf ps -> option_map fst (spec_request (do_written bc ps body)) = Some ps.
 Proof. intros H. rewrite request_roundtrip by exact H. reflexivity. Qed.
-Corollary body_roundtrip ps body : pairs_wf ps -> option_map snd (spec_request (do_written ps body)) = Some body.
+Corollary body_roundtrip bc ps body : pairs_wf ps -> option_map snd (spec_request (do_written bc ps body)) = Some body.
 Proof. intros H. rewrite request_roundtrip by exact H. reflexivity. Qed.
 
 (* ---------------- central theorem for arbitrary inputs (op 1 and op 2) ---------------- *)
@@ -587,7 +659,7 @@ Proof.
   - (* op 1 *)
     apply andb_true_iff in Hwf. destruct Hwf as [Hsz _]. pose proof (sizes_ok_wf _ Hsz) as Hp.
     unfold run_C55, prop_C55. rewrite Hd. unfold out_C55. destruct (client_stream resp) as [st code] eqn:Ec.
-    assert (Hb : bad_input (VL [VB (do_written ps body); VB st; VZ code]) = false) by reflexivity.
+    match goal with |- bad_input ?o || _ = true => assert (Hb : bad_input o = false) by reflexivity end.
     rewrite Hb. cbn [orb].
     rewrite request_roundtrip by exact Hp. rewrite same_pairs_refl, bytes_eqb_refl. cbn [andb].
     destruct (has_other_content resp) eqn:Eo; [discriminate|].
